@@ -91,9 +91,11 @@ type vCluster struct {
 	https []string
 }
 
-func vStartCluster(dir string) (*vCluster, error) {
+func vStartCluster(dir string) (*vCluster, error) { return vStartClusterN(dir, 3) }
+
+func vStartClusterN(dir string, size int) (*vCluster, error) {
 	c := &vCluster{}
-	for i := 0; i < 3; i++ {
+	for i := 0; i < size; i++ {
 		cfg := NewConfig()
 		cfg.BindAddress = vFreeAddr()
 		cfg.HTTPBindAddress = vFreeAddr()
@@ -108,7 +110,7 @@ func vStartCluster(dir string) (*vCluster, error) {
 	}
 	// Service.Open blocks until a raft leader is known, i.e. until the joins below happened
 	var wg sync.WaitGroup
-	errs := make([]error, 3)
+	errs := make([]error, size)
 	for i, n := range c.nodes {
 		wg.Add(1)
 		go func(i int, n *vMNode) { defer wg.Done(); errs[i] = n.start() }(i, n)
